@@ -147,8 +147,41 @@ def run(tier, seed):
         if h in pyids: rep.violation('c11:duplicate-id', {'db': 'zonedbpy', 'a': pyids[h], 'b': n})
         pyids[h] = n
     rep.coverage['zonedbpy_zones'] = len(zp.ZONE_INFO_MAP); rep.coverage['baseline_names'] = len(baseline)
+    # freshly compiled source (the vendored 2025b release): ids, uniqueness, registry order, links, for both scopes
+    import tempfile, shutil, tabledump
+    from oracle import tzsrc
+    text, z1, l1, _ = tzsrc.normalise_zi()
+    fresh = 0
+    for scope in ('extended', 'basic'):
+        comp = pipeline.compile_text(text, scope)
+        d = tempfile.mkdtemp(prefix='verif-c11-')
+        try:
+            pipeline.generate(comp, 'arduino', d, db_namespace='vdb', buf_sizes={z: 7 for z in comp.tzdb['zones_map']})
+            dumped = tabledump.dump(d, 'vdb', scope == 'extended')
+            hdr = open(os.path.join(d, 'zone_infos.h')).read()
+        finally:
+            shutil.rmtree(d, ignore_errors=True)
+        names = [z['name'] for z in dumped['zones']]
+        seen = {}
+        for z in dumped['zones']:
+            fresh += 1
+            if z['zoneId'] != djb2(z['name']): rep.violation('c11:fresh-source:id-not-djb2', {'scope': scope, 'zone': z['name'], 'id': z['zoneId']})
+            if z['name'] in baseline and baseline[z['name']] != z['zoneId']: rep.violation('c11:fresh-source:id-differs-from-baseline', {'scope': scope, 'zone': z['name']})
+            if z['zoneId'] in seen: rep.violation('c11:fresh-source:duplicate-id', {'scope': scope, 'a': seen[z['zoneId']], 'b': z['name']})
+            seen[z['zoneId']] = z['name']
+        if sorted(set(names)) != sorted(comp.tzdb['zones_map']) or len(names) != len(set(names)) or dumped['db']['registrySize'] != len(comp.tzdb['zones_map']):
+            rep.violation('c11:fresh-source:registry-not-every-zone-once', {'scope': scope, 'registry': len(names), 'emitted': len(comp.tzdb['zones_map'])})
+        for x, y in zip(names, names[1:]):
+            if not (x.encode() < y.encode()): rep.violation('c11:fresh-source:registry-not-ascending', {'scope': scope, 'a': x, 'b': y})
+        consts = dict((m.group(2), int(m.group(1), 16)) for m in re.finditer(r'const uint32_t kZoneId\w+ = (0x[0-9a-f]+); // (\S+)', hdr))
+        for z in dumped['zones']:
+            if consts.get(z['name']) != z['zoneId']: rep.violation('c11:fresh-source:kZoneId-constant-differs', {'scope': scope, 'zone': z['name']})
+        hl = dict((m.group(1), m.group(2)) for m in re.finditer(r'extern const \S+ZoneInfo& kZone\w+; // (\S+) -> (\S+)', hdr))
+        if hl != dict(comp.tzdb['links_map']): rep.violation('c11:fresh-source:links-differ', {'scope': scope, 'only_header': sorted(set(hl) - set(comp.tzdb['links_map']))[:3], 'only_emitted': sorted(set(comp.tzdb['links_map']) - set(hl))[:3]})
+    rep.coverage['fresh_source_zones'] = fresh
+    n_eval += fresh
     rep.assumptions += ['id_baseline.json is the committed name -> id snapshot (ids are a pure function of the name, so stability <=> function and names unchanged)',
-                        'freshly compiled sources are checked for the same properties in C03/C20']
+                        'freshly compiled source = the vendored 2025b release through the real pipeline and ArduinoGenerator, both scopes, read back from the compiled tables']
     return rep.finish(exhaustive=True, extra={'evaluations': n_eval + rep.coverage.get('getZoneId_checks', 0), 'distinct_nontrivial': len(allnames),
         'samples': [{'zone': 'America/Los_Angeles', 'id': '0x%08x' % djb2('America/Los_Angeles')}, {'link': 'US/Pacific', 'target': 'America/Los_Angeles'}],
         'rule': 'every zone, id constant, link and registry entry of zonedb and zonedbx (read from the compiled objects through a generated translation unit), every zonedbpy name and every baseline name'})
